@@ -25,6 +25,7 @@ import (
 	"log"
 	logslog "log/slog"
 	"os"
+	"os/exec"
 	"path/filepath"
 	"reflect"
 	"regexp"
@@ -32,6 +33,8 @@ import (
 	"sort"
 	"strconv"
 	"strings"
+	"sync"
+	"time"
 
 	"github.com/hedzr/logg/slog"
 )
@@ -80,9 +83,44 @@ func c14LineSiteOf(id string) *c14LineSite {
 }
 
 type c14site struct {
-	inl [c14InlDepth + 1]func() // inl[d]: top of the static, inlinable chain with d wrappers
-	no  func()                  // the //go:noinline site
-	at  func()                  // the //go:noinline site whose call carries attributes (nil: the entry point takes none)
+	inl  [c14InlDepth + 1]func() // inl[d]: top of the static, inlinable chain with d wrappers
+	no   func()                  // the //go:noinline site
+	at   func()                  // the //go:noinline site whose call carries attributes (nil: the entry point takes none)
+	pan  bool                    // the entry point panics after the record was written (package log's Panic*)
+	term bool                    // the entry point ends the process after the record was written (package log's Fatal*)
+}
+
+// ---- front ends and routes (dimension `route`, FrontOf of spec/Caller.tla)
+
+// c14MW is a log/slog handler that wraps another one (middleware): one more Handle frame between
+// log/slog and the adapter.
+type c14MW struct{ logslog.Handler }
+
+func (m c14MW) Handle(ctx context.Context, r logslog.Record) error {
+	return m.Handler.Handle(ctx, r)
+}
+func (m c14MW) WithAttrs(a []logslog.Attr) logslog.Handler { return c14MW{m.Handler.WithAttrs(a)} }
+func (m c14MW) WithGroup(n string) logslog.Handler        { return c14MW{m.Handler.WithGroup(n)} }
+
+// c14HelperSL is the wrapper of log/slog's documentation ("Wrapping output methods"): it builds the
+// Record with the PC of ITS caller and hands it to the handler (entry point logslog.Handle).
+func c14HelperSL(msg string) {
+	var pcs [1]uintptr
+	runtime.Callers(2, pcs[:]) // skip [Callers, c14HelperSL]
+	r := logslog.NewRecord(time.Now(), logslog.LevelInfo, msg, pcs[0])
+	_ = c14SL.Handler().Handle(c14Ctx, r)
+}
+
+func c14RouteDepth(route string) (int, bool) {
+	switch route {
+	case "", "direct":
+		return 0, true
+	case "mw1":
+		return 1, true
+	case "mw2":
+		return 2, true
+	}
+	return 0, false
 }
 
 // ---- attributes of the program that are named like the built-in member (dimension `ua` of spec/Caller.tla)
@@ -185,9 +223,16 @@ var c14NoChain = [c14NoDepth + 1]func(){nil, c14wN1, c14wN2, c14wN3, c14wN4, c14
 //
 //go:noinline
 func c14drive(top func()) {
+	defer func() { // package log's Panic* functions panic after the record was written; anything else is not expected
+		if r := recover(); r != nil && !c14Panics {
+			panic(r)
+		}
+	}()
 	top()
 	c14After++
 }
+
+var c14Panics bool // the entry point of the cell being issued panics by contract
 
 // ---- recording destination
 
@@ -202,6 +247,7 @@ type c14Rec struct {
 	writes  int
 	payload []byte
 	stack   []c14Frame
+	onWrite func() // called at the end of every Write (cells whose entry point never returns)
 }
 
 func (r *c14Rec) reset() { r.writes = 0; r.payload = nil; r.stack = nil }
@@ -219,6 +265,9 @@ func (r *c14Rec) Write(p []byte) (int, error) {
 		if !more {
 			break
 		}
+	}
+	if r.onWrite != nil {
+		r.onWrite()
 	}
 	return len(p), nil
 }
@@ -247,6 +296,7 @@ type c14Cell struct {
 	Depth int    `json:"depth"`
 	Site  string `json:"site"` // "go" / "": ordinary source file; else the id of a //line chain
 	UA    string `json:"ua"`   // "none" / "": no attribute keyed `caller`; else <rec|log|hdl>-<plain|group>
+	Route string `json:"route"` // "direct" / "": the handler sits directly under log/slog; mw<k>: behind k middleware handlers
 }
 
 func (c *c14Cell) ua() (where string, group bool) {
@@ -316,8 +366,15 @@ func c14Main(args []string) int {
 			}
 		}
 		sort.Strings(uaRec)
+		var termEps []string
+		for k, st := range c14Sites {
+			if st.term {
+				termEps = append(termEps, k)
+			}
+		}
+		sort.Strings(termEps)
 		b, _ := json.Marshal(map[string]any{"eps": names, "inl_depth": c14InlDepth, "no_depth": c14NoDepth,
-			"ua_eps": c14UAEps, "ua_rec_eps": uaRec,
+			"ua_eps": c14UAEps, "ua_rec_eps": uaRec, "term_eps": termEps,
 			"line_sites": lineSites, "line_eps": lineEps, "line_depth": c14LineDepth,
 			"hist_withs": clr14Withs, "hist_touches": clr14Touches, "hist_fams": clr14Fams, "hist_eps": clr14Eps})
 		fmt.Println(string(b))
@@ -325,6 +382,9 @@ func c14Main(args []string) int {
 	}
 	if len(args) >= 1 && args[0] == "hist" {
 		return clr14Hist(args[1:])
+	}
+	if len(args) >= 2 && args[0] == "one" {
+		return c14One(args[1])
 	}
 	if len(args) < 4 || args[0] != "run" {
 		fmt.Fprintln(os.Stderr, "usage: worker c14 run <cells.ndjson> <trace.ndjson> <detail.ndjson> | worker c14 hist <behaviours.ndjson> <trace.ndjson> [<detail.ndjson>] | worker c14 list")
@@ -343,28 +403,128 @@ func c14Main(args []string) int {
 
 	sc := bufio.NewScanner(in)
 	sc.Buffer(make([]byte, 1<<20), 1<<20)
+	var cells []*c14Cell
 	for sc.Scan() {
 		line := strings.TrimSpace(sc.Text())
 		if line == "" {
 			continue
 		}
-		var c c14Cell
-		if err := json.Unmarshal([]byte(line), &c); err != nil {
+		c := &c14Cell{}
+		if err := json.Unmarshal([]byte(line), c); err != nil {
 			fmt.Fprintln(os.Stderr, "bad cell:", err)
 			return 2
 		}
 		if c.UA == "" {
 			c.UA = "none"
 		}
-		d := c14Run(&c)
-		trace.emit(c14TraceLine{c14Cell: c, Got: d.Got})
-		detail.emit(d)
+		if c.Route == "" {
+			c.Route = "direct"
+		}
+		cells = append(cells, c)
 	}
 	if err := sc.Err(); err != nil {
 		fmt.Fprintln(os.Stderr, err)
 		return 2
 	}
+	// cells whose entry point ends the process (package log's Fatal*): each in a process of its own, started
+	// here (a few at a time) and collected when the cell's turn comes
+	term := map[int]chan c14Detail{}
+	sem := make(chan struct{}, 6)
+	for _, c := range cells {
+		if st := c14Sites[c.Ep]; st != nil && st.term {
+			ch := make(chan c14Detail, 1)
+			term[c.ID] = ch
+			go func(c *c14Cell) {
+				sem <- struct{}{}
+				ch <- c14Child(c)
+				<-sem
+			}(c)
+		}
+	}
+	for _, c := range cells {
+		var d c14Detail
+		if ch := term[c.ID]; ch != nil {
+			d = <-ch
+		} else {
+			d = c14Run(c)
+		}
+		trace.emit(c14TraceLine{c14Cell: *c, Got: d.Got})
+		detail.emit(d)
+	}
 	return 0
+}
+
+// ---- cells in a process of their own
+
+const c14OneMark = "@@c14one "
+
+var c14OneOnce sync.Once
+
+// c14One (child): runs one cell; the result is printed from inside the destination's Write, because
+// the entry point does not return (log.Fatal* calls os.Exit after the record was written).
+func c14One(cellJSON string) int {
+	c := &c14Cell{}
+	if err := json.Unmarshal([]byte(cellJSON), c); err != nil {
+		fmt.Fprintln(os.Stderr, "bad cell:", err)
+		return 2
+	}
+	d := c14Run(c)
+	c14OnePrint(&d) // (only reached when the entry point returned)
+	return 0
+}
+
+func c14OnePrint(d *c14Detail) {
+	c14OneOnce.Do(func() {
+		b, _ := json.Marshal(d)
+		os.Stdout.WriteString(c14OneMark + string(b) + "\n")
+		_ = os.Stdout.Sync()
+	})
+}
+
+// c14Child (parent): runs the cell in a child process and reads its result.
+func c14Child(c *c14Cell) (d c14Detail) {
+	d.ID = c.ID
+	d.Got = c14Got{K: "none", I: -1}
+	b, _ := json.Marshal(c)
+	argv := []string{"c14", "one", string(b)}
+	for _, a := range os.Args[1:] {
+		if strings.HasPrefix(a, "-test.") {
+			argv = append(argv, a)
+		}
+	}
+	cmd := exec.Command(os.Args[0], argv...)
+	cmd.Args[0] = os.Args[0]
+	var stderr strings.Builder
+	cmd.Stderr = &stderr
+	out, err := cmd.Output()
+	for _, ln := range strings.Split(string(out), "\n") {
+		if strings.HasPrefix(ln, c14OneMark) {
+			var got c14Detail
+			if e := json.Unmarshal([]byte(ln[len(c14OneMark):]), &got); e != nil {
+				d.HErr = "child process: unreadable result: " + e.Error()
+				return
+			}
+			got.ID = c.ID
+			return got
+		}
+	}
+	code := -1
+	if ee, ok := err.(*exec.ExitError); ok {
+		code = ee.ExitCode()
+	} else if err == nil {
+		code = 0
+	}
+	if code == 1 { // package log ended the process and the destination never saw a Write
+		d.Shape = "none"
+		d.Got = c14Got{K: "norecord", I: -1}
+		return
+	}
+	tail := stderr.String()
+	if len(tail) > 600 {
+		tail = tail[len(tail)-600:]
+	}
+	d.HErr = fmt.Sprintf("child process ended without a result (exit %d): %s", code, tail)
+	return
 }
 
 // c14FuncFile: the file the symbol table has for the body of f (the line after its entry).
@@ -449,6 +609,11 @@ func c14Run(c *c14Cell) (d c14Detail) {
 		d.HErr = "wrapper depth not available in the worker"
 		return
 	}
+	mwDepth, ok := c14RouteDepth(c.Route)
+	if !ok || (mwDepth > 0 && c.Fam != "adapter") {
+		d.HErr = "route not available in the worker"
+		return
+	}
 
 	// -- process-global settings (documented defaults; Panic/Fatal must not end the process)
 	slog.SetFlags(slog.LstdFlags | slog.LnoInterrupt)
@@ -524,14 +689,29 @@ func c14Run(c *c14Cell) (d c14Detail) {
 		switch c.Fam {
 		case "adapter":
 			h := slog.NewSlogHandler(t, &slog.HandlerOptions{NoColor: c.Fmt != "color", JSON: c.Fmt == "json"})
+			for k := 0; k < mwDepth; k++ { // the adapter behind other handlers
+				h = c14MW{h}
+			}
 			c14SL = logslog.New(h)
 			if uaWhere == "hdl" { // Logger.With -> Handler.WithAttrs
 				c14SL = c14SL.With(c14UASLAttr(uaGroup))
 			}
+			if c.Ep == "logslog.std.Print" { // log/slog's own std-log front end on the handler
+				c14Std = logslog.NewLogLogger(c14SL.Handler(), logslog.LevelInfo)
+			}
 		case "bridge":
 			c14Std = slog.NewLogLogger(t, slog.InfoLevel)
+			if strings.HasPrefix(c.Ep, "log.") { // package log itself writes into the bridge
+				log.SetOutput(c14Std.Writer())
+			}
 		}
 		built = true
+	}
+	if c.Fam == "bridge" && strings.HasPrefix(c.Ep, "log.") {
+		defer func(w io.Writer, f int) { log.SetOutput(w); log.SetFlags(f) }(log.Writer(), log.Flags())
+		if c14Serial%3 == 0 { // package log then looks for file:line itself (its own runtime.Caller) - nothing the bridge sees
+			log.SetFlags(log.LstdFlags | log.Lshortfile)
+		}
 	}
 	early := c14Serial%2 == 1 && (c.Fam == "adapter" || c.Fam == "bridge")
 	frontTarget := func() slog.Logger {
@@ -647,9 +827,23 @@ func c14Issue(c *c14Cell, d *c14Detail, checkFmt bool) {
 	}
 
 	c14rec.reset()
+	c14Panics = site.pan
+	if site.term { // the call does not return: the outcome is projected and printed from inside the destination's Write
+		c14rec.onWrite = func() {
+			c14Project(c, d, ls, checkFmt)
+			c14OnePrint(d)
+		}
+	}
 	c14drive(top)
+	c14Panics = false
+	c14rec.onWrite = nil
+	c14Project(c, d, ls, checkFmt)
+}
 
-	// -- projection
+// c14Project: which frame of the real call stack (captured by the destination) the caller member of the
+// record names.
+func c14Project(c *c14Cell, d *c14Detail, ls *c14LineSite, checkFmt bool) {
+	d.Got = c14Got{K: "none", I: -1}
 	d.Writes = c14rec.writes
 	d.Record = string(c14rec.payload)
 	if c14rec.writes == 0 {
@@ -768,8 +962,12 @@ func c14Ident(ep string) string {
 	switch {
 	case strings.HasPrefix(ep, "slog."):
 		return "Pkg_" + ep[5:]
+	case strings.HasPrefix(ep, "logslog.std."):
+		return "SlStd_" + ep[12:]
 	case strings.HasPrefix(ep, "logslog."):
 		return "Sl_" + ep[8:]
+	case strings.HasPrefix(ep, "log."):
+		return "Log_" + ep[4:]
 	case strings.HasPrefix(ep, "stdlog."):
 		return "Std_" + ep[7:]
 	}
